@@ -11,10 +11,7 @@ def analysed_fns(ctx):
     return [f for f in ctx.F.fns if f["kind"] != "Closure" and "mir" in f]
 
 
-def is_alg(f):
-    """multi-lock algorithm helpers: summarised as primitives at API level and decided by the held-set analysis (E4)"""
-    import model
-    return f["path"] in model.ALG_PRIMS
+# multi-lock algorithm helpers (ctx.A.role) are summarised as primitives at API level and decided by E4
 
 
 def _site(ev, ordmap):
@@ -82,7 +79,7 @@ def rule_T1(ctx, R):
         judged = (not f.get("unsafe")) or acquires
         if not judged:
             continue
-        if (any(p.kind == "cut" for p in paths) and f.get("unsafe")) or is_alg(f):
+        if (any(p.kind == "cut" for p in paths) and f.get("unsafe")) or (f["path"] in ctx.A.role):
             continue
         bad = False
         for p in paths:
@@ -160,7 +157,7 @@ def rule_M4(ctx, R):
             continue
         if f.get("unsafe") and not acquires:
             continue   # precondition carried to callers (which are analysed with this body inlined)
-        if any(p.kind == "cut" for p in paths) or is_alg(f):
+        if any(p.kind == "cut" for p in paths) or (f["path"] in ctx.A.role):
             continue   # loop-bearing algorithm bodies: list elements are not tracked here (Q3/Q4, E2 decide them)
         bad = False
         for p in paths:
@@ -208,7 +205,7 @@ def rule_LEAK(ctx, R, rule="R3", roles=("ACQ-SCOPED",), all_fns=False, floor=30)
             continue
         if any(p.kind == "cut" for p in paths) and f.get("unsafe"):
             continue   # algorithm bodies with loops: decided by the held-set engine, not here
-        if (f.get("trait_item") or "").startswith("lockable::RawLock::") or is_alg(f):
+        if (f.get("trait_item") or "").startswith("lockable::RawLock::") or (f["path"] in ctx.A.role):
             continue   # HL ops / algorithm helpers: returning with the lock held is their contract (M2, E2, E5 decide them)
         leaks = held_exit_obligation(ctx, R, f, paths)
         if leaks:
